@@ -318,6 +318,11 @@ func (f *Frame) applyContract(con *Contract, callee *ssa.Function, sig *types.Si
 	pre := st.clone()
 	preAlloc := vc.get(st, "alloc")
 	// havoc modifies
+	if !con.Pure && !con.HasModifies && !con.Trusted {
+		// a PROVED contract without a modifies clause claims no frame: callers may assume nothing
+		// about what it leaves unchanged
+		vc.havocAll(st, true)
+	}
 	if !con.Pure {
 		for _, m := range con.Modifies {
 			switch m.Kind {
@@ -384,7 +389,50 @@ func (f *Frame) applyContract(con *Contract, callee *ssa.Function, sig *types.Si
 		t := f.evalClause(post, c, con)
 		vc.assumeUnder(st.pc, t)
 	}
+	f.applyLogs(con, post, st)
 	return res
+}
+
+// applyLogs performs the `logs g == e` assignments of a contract in state st (post.st must be st):
+// every logged ghost gets a fresh value defined by its clause; old(g) refers to post.old.
+func (f *Frame) applyLogs(con *Contract, post *SpecEnv, st *State) {
+	vc := f.vc
+	if len(con.Logs) == 0 {
+		return
+	}
+	// evaluate all right-hand sides against the state BEFORE any of the logged ghosts change
+	// (old(g) and plain g both denote the value before this call's bookkeeping)
+	type upd struct {
+		key string
+		val Term
+	}
+	var ups []upd
+	for _, c := range con.Logs {
+		g, ok := vc.db.Ghosts[c.LogGhost]
+		if !ok {
+			specFail("contract %s logs unknown ghost %s", con.Name, c.LogGhost)
+		}
+		ty := vc.resolveType(g.Type, vc.pkgByRel(g.Pkg))
+		vc.registerVar("g:"+c.LogGhost, ty.Sort)
+		rhs := c.Expr.(*SBinary).Y
+		var t Term
+		func() {
+			defer func() {
+				if r := recover(); r != nil {
+					if se, ok := r.(specErr); ok {
+						panic(specErr{fmt.Sprintf("contract %s: logs %q: %s", con.Name, c.Src, se.msg)})
+					}
+					panic(r)
+				}
+			}()
+			v := post.eval(rhs)
+			t = v.T
+		}()
+		ups = append(ups, upd{"g:" + c.LogGhost, vc.define("log_"+c.LogGhost, ty.Sort, t)})
+	}
+	for _, u := range ups {
+		st.vars[u.key] = u.val
+	}
 }
 
 func lastName(s string) string {
